@@ -40,8 +40,17 @@ def r19a(chk, rid='R19.a'):
     if len(fns) != 2:
         raise AnalysisError(f'{len(fns)} replaceUrls implementations found (2 expected)')
     n = 0
-    for fn in fns:
-        q = 'replaceUrls' if fn.name == 'replaceUrls' else 'replaceUrls[CSSStyleDeclaration]'
+    # module-level helpers the implementations call (transitively) belong to them
+    top = {st.name: st for st in m.tree.body if isinstance(st, ast.FunctionDef) and st not in fns}
+    work, helpers = list(fns), []
+    while work:
+        f = work.pop()
+        for c in ast.walk(f):
+            if isinstance(c, ast.Call) and isinstance(c.func, ast.Name) and c.func.id in top and top[c.func.id] not in helpers and c.func.id != 'replaceUrls':
+                helpers.append(top[c.func.id])
+                work.append(top[c.func.id])
+    for fn in fns + helpers:
+        q = 'replaceUrls' if fn.name == 'replaceUrls' else ('replaceUrls[CSSStyleDeclaration]' if fn in fns else fn.name)
         for st in ast.walk(fn):
             if isinstance(st, (ast.Assign, ast.AugAssign)):
                 for t in (st.targets if isinstance(st, ast.Assign) else [st.target]):
@@ -56,7 +65,7 @@ def r19a(chk, rid='R19.a'):
         for c in calls:
             par = m.parents.get(c)
             chk.ob(rid, INIT, q, f'`{text(c)}` is only used as the new value of that attribute', isinstance(par, ast.Assign), 'the replacer is called without storing its result (called more often than URLs are replaced)', trivial=True)
-    if n < 3:
+    if n < 2:
         raise AnalysisError('replaceUrls: stores not found')
 
 
@@ -80,24 +89,108 @@ def r19b(chk, rid='R19.b'):
     chk.ob(rid, INIT, 'MediaCombineDisallowed._combinable', 'style rules and comments are combinable', {'STYLE_RULE', 'COMMENT'} <= set(kinds), str(kinds))
 
 
+def _model_sheet():
+    """A model style sheet for the evaluator: @import rules, style rules, an @media rule with
+    nested rules, an @page rule with its own declarations *and* margin boxes, a comment."""
+    from sa.absint import Record
+
+    class Sheet(Record):
+        def __iter__(self):
+            return iter(self.cssRules)
+
+    IMPORT, STYLE, MEDIA, PAGE, MARGIN, COMMENT = 3, 1, 4, 6, 1006, 1001
+
+    def style(*props):
+        """props: lists of values; the last property is the effective one"""
+        plist = [Record(propertyValue=list(vs)) for vs in props]
+        return Record(getProperties=lambda name=None, all=False: list(plist) if all else plist[-1:])
+
+    def uri(u):
+        return Record(type='URI', uri=u)
+
+    def ident(v):
+        return Record(type='IDENT', value=v)
+
+    def rule(type_, **kw):
+        return Record(type=type_, IMPORT_RULE=IMPORT, **kw)
+
+    rules = [
+        rule(IMPORT, href='imp1'),
+        rule(COMMENT),
+        rule(STYLE, style=style([uri('s1-overridden')], [ident('red'), uri('s1a'), uri('s1b')])),
+        rule(MEDIA, cssRules=[rule(STYLE, style=style([uri('m1')])), rule(PAGE, style=style([uri('mp-own')]), cssRules=[rule(MARGIN, style=style([uri('mp-box')]))])]),
+        rule(IMPORT, href='imp2'),
+        rule(PAGE, style=style([ident('x')], [uri('p-own')]), cssRules=[rule(MARGIN, style=style([uri('p-box1')])), rule(MARGIN, style=style([ident('none')]))]),
+        rule(STYLE, style=style([ident('nothing')])),
+    ]
+    sheet = Sheet(cssRules=rules)
+    imports = ['imp1', 'imp2']
+    others = ['s1-overridden', 's1a', 's1b', 'm1', 'mp-own', 'mp-box', 'p-own', 'p-box1']
+    return sheet, imports, others
+
+
+def _all_values(base, out):
+    for r in getattr(base, 'cssRules', ()):
+        _all_values(r, out)
+    if hasattr(base, 'style'):
+        for p in base.style.getProperties(all=True):
+            out.extend(p.propertyValue)
+    return out
+
+
 def r19c(chk, rid='R19.c'):
-    chk.rule(rid, 'one enumeration for reading and replacing: getUrls and replaceUrls both take @import targets by the same predicate and all other URLs from _uri_values over _style_declarations; _style_declarations yields the own style of every object that has one, independently of (and in addition to) recursing into its cssRules; _uri_values visits all properties (all=True) and filters on the URI value type')
+    chk.rule(rid, 'one enumeration for reading and replacing, decided by evaluation: getUrls, replaceUrls and its CSSStyleDeclaration overload (with _style_declarations, _uri_values and any helper they call) are evaluated on their syntax trees over a model sheet - @import rules, overridden and effective declarations, url() and other values, an @media rule with nested rules, @page rules that have own declarations and margin boxes: every @import target and every url() value is listed exactly once, imports first; the replacer is called exactly once with each of them and its result is stored in the attribute it was read from; nothing else is written; ignoreImportRules leaves the @import targets alone')
+    import itertools
+
+    from sa.absint import Evaluator, Raised
+
     m = chk.repo.mod(INIT)
-    g = ast.unparse(m.get('getUrls'))
-    r = ast.unparse(m.get('replaceUrls'))
-    chk.ob(rid, INIT, 'getUrls', 'imports first: rule.href for IMPORT_RULE rules, then the style URLs', 'rule.href for rule in sheet if rule.type == rule.IMPORT_RULE' in g and 'itertools.chain(imports, other)' in g, '', shape=True)
-    chk.ob(rid, INIT, 'getUrls', 'style URLs come from _uri_values over _style_declarations', '_style_declarations(sheet)' in g and '_uri_values(style)' in g and 'value.uri' in g, '', shape=True)
-    chk.ob(rid, INIT, 'replaceUrls', 'same import predicate (plus ignoreImportRules) and same enumeration', 'rule.type == rule.IMPORT_RULE and (not ignoreImportRules)' in r and '_uri_values' in r and '_style_declarations(sheet)' in r, '', shape=True)
-    sd = m.get('_style_declarations')
-    top = [s for s in sd.body if not (isinstance(s, ast.Expr) and isinstance(s.value, ast.Constant))]
-    loops = [s for s in top if isinstance(s, ast.For) and 'cssRules' in text(s.iter)]
-    own = [s for s in top if isinstance(s, ast.If) and "hasattr(base, 'style')" in text(s.test) and any('yield base.style' in text(x) for x in s.body)]
-    chk.ob(rid, INIT, '_style_declarations', 'recurses into cssRules unconditionally', len(loops) == 1 and any(isinstance(x, ast.YieldFrom) for x in ast.walk(loops[0])), 'nested rules are not visited')
-    chk.ob(rid, INIT, '_style_declarations', 'yields the own style of every object that has one, whether or not it has nested rules', len(own) == 1,
-           'an object with both cssRules and style (an @page rule with margin boxes) loses its own declarations: their URLs are neither listed nor replaced')
-    uv = ast.unparse(m.get('_uri_values'))
-    chk.ob(rid, INIT, '_uri_values', 'visits every property (all=True), not only the effective ones', 'style.getProperties(all=True)' in uv, 'URLs in overridden declarations are skipped', shape=True)
-    chk.ob(rid, INIT, '_uri_values', "filters on value.type == 'URI'", "value.type == 'URI'" in uv, '', shape=True)
+    intr = {'itertools.chain': lambda *its: [x for it in its for x in it], '_flatten': lambda its: [x for it in its for x in it],
+            'itertools.chain.from_iterable': lambda its: [x for it in its for x in it], 'itertools.filterfalse': lambda f, it: [x for x in it if not f(x)]}
+    sheet, imports, others = _model_sheet()
+    got = Evaluator(m.get('getUrls'), intrinsics=intr, module=m).run(sheet=sheet)
+    got = list(got) if not isinstance(got, Raised) else got
+    ok = isinstance(got, list) and sorted(got) == sorted(imports + others)
+    chk.ob(rid, INIT, 'getUrls', 'every @import target and every url() value is listed exactly once', ok,
+           f'listed {got}; the sheet holds {imports + others}' + (': URLs of overridden declarations or of rules that have both nested rules and own declarations are missing' if isinstance(got, list) and len(got) < len(imports + others) else ''))
+    if isinstance(got, list):
+        chk.ob(rid, INIT, 'getUrls', 'imports first, in document order; then the url() values with sibling rules in document order', got[:len(imports)] == imports and [u for u in got if u in ('s1a', 'm1', 'p-own')] == ['s1a', 'm1', 'p-own'], f'order {got}')
+    fns = _replace_functions(m)
+    main = [f for f in fns if f.name == 'replaceUrls']
+    over = [f for f in fns if f.name != 'replaceUrls']
+    if len(main) != 1 or len(over) != 1:
+        raise AnalysisError('replaceUrls and its overload not found')
+    for ignore in (False, True):
+        sheet, imports, others = _model_sheet()
+        before = [(v, dict(v.__dict__)) for v in _all_values(sheet, [])]
+        calls = []
+
+        def replacer(u):
+            calls.append(u)
+            return f'R({u})'
+
+        res = Evaluator(main[0], intrinsics=intr, module=m).run(sheet=sheet, replacer=replacer, ignoreImportRules=ignore)
+        want_calls = ([] if ignore else imports) + others
+        label = f'replaceUrls(ignoreImportRules={ignore})'
+        chk.ob(rid, INIT, 'replaceUrls', f'{label}: the replacer is called exactly once with each URL', not isinstance(res, Raised) and sorted(calls) == sorted(want_calls), f'called with {calls}, the sheet holds {want_calls}' + (f'; {res!r}' if isinstance(res, Raised) else ''))
+        hrefs = [r.href for r in sheet.cssRules if r.type == 3]
+        chk.ob(rid, INIT, 'replaceUrls', f'{label}: @import targets ' + ('are left alone' if ignore else 'receive the replacement'), hrefs == (imports if ignore else [f'R({u})' for u in imports]), str(hrefs))
+        bad = []
+        for v, old in before:
+            now = dict(v.__dict__)
+            exp = dict(old)
+            if old.get('type') == 'URI':
+                exp['uri'] = f"R({old['uri']})"
+            if now != exp:
+                bad.append((old, now))
+        chk.ob(rid, INIT, 'replaceUrls', f'{label}: every url() value holds the replacement of its own old value, nothing else is written', not bad, str(bad[:2]))
+    # the overload for a single declaration block
+    sheet, imports, others = _model_sheet()
+    st = sheet.cssRules[2].style
+    calls = []
+    res = Evaluator(over[0], intrinsics=intr, module=m).run(style=st, replacer=lambda u: (calls.append(u), f'R({u})')[1])
+    vals = [v.uri for p in st.getProperties(all=True) for v in p.propertyValue if v.type == 'URI']
+    chk.ob(rid, INIT, 'replaceUrls[CSSStyleDeclaration]', 'the overload replaces every url() of the block, overridden declarations included, once each', not isinstance(res, Raised) and sorted(calls) == ['s1-overridden', 's1a', 's1b'] and vals == ['R(s1-overridden)', 'R(s1a)', 'R(s1b)'], f'called with {calls}; values now {vals}')
 
 
 def r19d(chk, rid='R19.d'):
@@ -137,11 +230,73 @@ def r19e(chk, rid='R19.e'):
             chk.ob(rid, INIT, '_resolve_import', f'fall-back `{text(n.test) if isinstance(n, ast.If) else "except " + text(n.type)}` keeps the @import rule and stops', ok, 'the import is neither resolved nor kept')
     if falls != 3:
         raise AnalysisError(f'_resolve_import: {falls} fall-backs found (3 expected)')
-    src = ast.unparse(fn)
-    chk.ob(rid, INIT, '_resolve_import', 'URLs are rebased relative to the import href, nested @import rules untouched', 'replaceUrls(importedSheet, Replacer(rule.href), ignoreImportRules=True)' in src, '', shape=True)
-    chk.ob(rid, INIT, '_resolve_import', 'nested imports are flattened first', 'importedSheet = resolveImports(rule.styleSheet)' in src, '', shape=True)
-    chk.ob(rid, INIT, '_resolve_import', 'rules go into the media wrapper, or straight into the target', 'imp_target = media_proxy or target' in src and 'imp_target.add(r)' in src and 'target.add(media_proxy)' in src, '', shape=True)
-    mp = ast.unparse(m.get('_check_media_proxy'))
-    chk.ob(rid, INIT, '_check_media_proxy', "no wrapper for media 'all'; otherwise the combinability check precedes the wrapper", "if rule.media.mediaText == 'all':\n        return" in mp and mp.index('MediaCombineDisallowed.check(importedSheet)') < mp.index('css.CSSMediaRule(rule.media.mediaText)'), '', shape=True)
-    ri = ast.unparse(m.get('resolveImports'))
-    chk.ob(rid, INIT, 'resolveImports', '@charset skipped, @import resolved, everything else added in document order', 'rule.type == rule.CHARSET_RULE' in ri and '_resolve_import(rule, target)' in ri and 'target.add(rule)' in ri and 'for rule in sheet.cssRules' in ri, '', shape=True)
+    _eval_flatten(chk, rid, m)
+
+
+def _eval_flatten(chk, rid, m):
+    """resolveImports / _resolve_import / _check_media_proxy evaluated on their syntax trees over
+    a model import tree (sheets, rules and the sheet constructors are model objects; replaceUrls is
+    recorded, its own behaviour is R19.c; MediaCombineDisallowed.check applies _combinable, which
+    is evaluated from the source, to every rule)."""
+    from sa.absint import Evaluator, Raised, Record, _Raise
+
+    class Sheet(Record):
+        def __iter__(self):
+            return iter(self.cssRules)
+
+    K = dict(CHARSET_RULE=2, IMPORT_RULE=3, STYLE_RULE=1, COMMENT=1001, NAMESPACE_RULE=10, MEDIA_RULE=4)
+
+    def rule(kind, tag, **kw):
+        return Record(type=K[kind], tag=tag, cssText=tag, **K, **kw)
+
+    def sheet(*rules):
+        sh = Sheet(cssRules=list(rules), href='h', media='m', title='t')
+        sh.add = lambda r: sh.cssRules.append(r)
+        return sh
+
+    def imp(tag, media, target):
+        return rule('IMPORT_RULE', tag, href=tag + '.css', hrefFound=target is not None, styleSheet=target, media=Record(mediaText=media))
+
+    A1 = sheet(rule('STYLE_RULE', 'a1'))
+    A = sheet(imp('A1', 'all', A1), rule('STYLE_RULE', 'a2'))
+    B = sheet(rule('COMMENT', 'bc'), rule('STYLE_RULE', 'b1'))
+    D = sheet(rule('NAMESPACE_RULE', 'n'), rule('STYLE_RULE', 'd1'))
+    root = sheet(rule('CHARSET_RULE', 'charset'), imp('A', 'all', A), rule('STYLE_RULE', 'r1'), imp('B', 'print', B), imp('C', 'all', None), imp('D', 'print', D), rule('STYLE_RULE', 'r2'))
+    replaced = []
+    comb = m.get('MediaCombineDisallowed._combinable')
+
+    def check(sh):
+        if [r for r in sh if not Evaluator(comb, module=m).run(rule=r)]:
+            raise _Raise('MediaCombineDisallowed')
+
+    def media_rule(text):
+        w = Record(type=K['MEDIA_RULE'], tag=f'@media {text}', cssRules=[], **K)
+        w.add = lambda r: w.cssRules.append(r)
+        return w
+
+    lg = Record(info=lambda *a, **k: None, warn=lambda *a, **k: None, error=lambda *a, **k: None)
+    intr = {'css.CSSStyleSheet': lambda **k: sheet(), 'css.CSSComment': lambda cssText=None: rule('COMMENT', cssText), 'css.CSSMediaRule': media_rule,
+            'MediaCombineDisallowed.check': check, 'replaceUrls': lambda sh, rep, ignoreImportRules=False: replaced.append((sh, rep, ignoreImportRules)),
+            'Replacer': lambda href: ('Replacer', href), 'log': lg, 'log.info': lg.info, 'log.warn': lg.warn, 'log.error': lg.error,
+            'xml': Record(dom=Record(HierarchyRequestErr='HierarchyRequestErr'))}
+    res = Evaluator(m.get('resolveImports'), intrinsics=intr, module=m).run(sheet=root)
+    if isinstance(res, Raised):
+        chk.ob(rid, INIT, 'resolveImports', 'flattening the model import tree', False, f'{res!r}')
+        return
+
+    def tags(container):
+        out = []
+        for r in container.cssRules:
+            if r.type == K['MEDIA_RULE']:
+                out.append((r.tag, tags(r)))
+            else:
+                out.append(r.tag)
+        return out
+
+    got = tags(res)
+    want = ['/* START @import "A.css" */', '/* START @import "A1.css" */', 'a1', 'a2', 'r1',
+            '/* START @import "B.css" */', ('@media print', ['bc', 'b1']), 'C', '/* START @import "D.css" */', 'D', 'r2']
+    chk.ob(rid, INIT, 'resolveImports', "the model import tree is flattened in cascade order: @charset dropped, imported groups in place of their @import, a group with media wrapped in @media, the @import kept when the target is missing or cannot be wrapped", got == want, f'result {got}, prescribed {want}')
+    reb = sorted((rep, ign) for sh, rep, ign in replaced)
+    want_reb = sorted((('Replacer', h), True) for h in ('A1.css', 'A.css', 'B.css', 'D.css'))
+    chk.ob(rid, INIT, '_resolve_import', 'the URLs of every resolved sheet are rebased once, relative to its import href, nested @import rules untouched', reb == want_reb, f'replaceUrls calls: {reb}')
